@@ -235,6 +235,9 @@ func (w Win) touchesSouth(k int64) bool { return w.Abs || w.Y0 == (int64(1)<<uin
 
 // ---- C02 -------------------------------------------------------------------
 func evVertex(t *Tracer, w Win, id ID, sp bool) {
+	if !(w.validIDs(id)) {
+		return // outside the documented domain: not a case
+	}
 	rid := w.E(id)
 	var o string
 	var res any
@@ -273,6 +276,9 @@ func evVertex(t *Tracer, w Win, id ID, sp bool) {
 }
 
 func evCentre(t *Tracer, w Win, id ID, sp bool) {
+	if !(w.validIDs(id)) {
+		return // outside the documented domain: not a case
+	}
 	rid := w.E(id)
 	var o string
 	var res any
@@ -350,6 +356,9 @@ func evCentre(t *Tracer, w Win, id ID, sp bool) {
 // evFace: two voxels sharing a face report bit-identical coordinates for it.
 // dir: 0 = east neighbour, 1 = south neighbour, 2 = upper neighbour.
 func evFace(t *Tracer, w Win, id ID, dir int64) {
+	if !(w.validIDs(id)) {
+		return // outside the documented domain: not a case
+	}
 	nb := id
 	switch dir {
 	case 0:
